@@ -175,6 +175,27 @@ def assumptions_of(prop_file, build_output):
     return (closed, sorted(set(axioms))), txt
 
 
+def depends_on(coq_file, dep, _seen=None):
+    """does coq/<coq_file> (transitively) import coq/<dep>?  Imports are all of the form `From VV Require Import A.B C.D.`"""
+    seen = _seen if _seen is not None else set()
+    if coq_file in seen:
+        return False
+    seen.add(coq_file)
+    try:
+        txt = open(os.path.join(COQ, coq_file)).read()
+    except OSError:
+        return False
+    for m in re.finditer(r"From\s+VV\s+Require\s+(?:Import|Export)\s+", txt):
+        rest = txt[m.end():]
+        end = re.search(r"\.(\s|$)", rest)
+        mods = rest[:end.start()] if end else rest
+        for mod in mods.split():
+            f = mod.replace(".", "/") + ".v"
+            if f == dep or depends_on(f, dep, seen):
+                return True
+    return False
+
+
 def build_model_eval():
     """extract Model.Run.run and build vv_eval"""
     od = os.path.join(BUILD, "ocaml")
